@@ -237,6 +237,93 @@ def _prep(p):
         return str(e)
 
 
+# ------------------------------------------------------------------------------------------------ mixed CFI leg
+MIXED_C = """
+#include <stdint.h>
+typedef uint64_t (*cb_t)(uint64_t);
+uint64_t c05_visit(cb_t cb, uint64_t x) {
+    volatile uint64_t pad[4] = {x, x + 1, x + 2, x + 3};
+    uint64_t r = cb(pad[1]);
+    return r + pad[3];
+}
+"""
+
+MIXED_RS = """#![allow(dead_code, unused)]
+extern "C" { fn c05_visit(cb: extern "C" fn(u64) -> u64, x: u64) -> u64; }
+#[inline(never)]
+extern "C" fn leaf(x: u64) -> u64 {
+    let y = x.wrapping_mul(3);
+    y ^ 5
+}
+#[inline(never)]
+fn middle(x: u64) -> u64 { let r = unsafe { c05_visit(leaf, x) }; r.wrapping_add(1) }
+#[inline(never)]
+fn rec(d: u64, x: u64) -> u64 { if d == 0 { middle(x) } else { rec(d - 1, x + d).wrapping_add(d) } }
+fn main() {
+    let a = rec(DEPTH, 1);
+    let b = rec(2, a);
+    println!("{}", a ^ b);
+}
+"""
+
+
+def mixed_case(spec):
+    """a C object whose unwind information is in .debug_frame only, called from Rust and calling back into Rust: the backtrace
+    taken in the callback must go through the C frame into every Rust caller"""
+    idx, tier = spec
+    import subprocess
+    from . import corpus
+    v = Verdict('C05', tier, '')
+    depth = [3, 9, 40][idx % 3]
+    cdir = os.path.join(common.CORPUS, 'build', 'c05mixed')
+    os.makedirs(cdir, exist_ok=True)
+    cobj = os.path.join(cdir, 'c05_visit.o')
+    if not os.path.exists(cobj):
+        open(os.path.join(cdir, 'c05_visit.c'), 'w').write(MIXED_C)
+        r = subprocess.run(['cc', '-g', '-O0', '-fPIC', '-fno-asynchronous-unwind-tables', '-c', os.path.join(cdir, 'c05_visit.c'), '-o', cobj + '.tmp'],
+                           stdout=subprocess.PIPE, stderr=subprocess.STDOUT, text=True)
+        if r.returncode != 0:
+            v.inconc('cc-failed', r.stdout[-300:])
+            return v.export()
+        os.replace(cobj + '.tmp', cobj)
+    src = MIXED_RS.replace('DEPTH', str(depth))
+    b = corpus.compile_rust(f'mixed{depth}', src, corpus.Config(tc='1.89' if idx % 2 else '1.95', extra=('-C', f'link-arg={cobj}')), {})
+    # is the C function really described in .debug_frame only? (otherwise the leg shows nothing)
+    fr = subprocess.run(['llvm-dwarfdump-14', '--debug-frame', b.path], stdout=subprocess.PIPE, text=True).stdout
+    v.count('mixed_cfi_binaries_with_debug_frame', 1 if 'FDE' in fr else 0)
+    ctx = {'binary': b.path, 'depth': depth, 'leg': 'mixed-cfi'}
+    S = Session(b, v, mon=False)
+    try:
+        S.launch()
+        S.cmd('break_fn', name='leaf')
+        r = S.cmd('start')
+        for stop_no, rec_frames in ((1, depth + 1), (2, 3)):
+            if (r.get('ok') or {}).get('stop') != 'breakpoint':
+                v.inconc('mixed-stop-not-reached', str(r)[:200])
+                break
+            bt = [(f.get('func') or '') for f in (S.cmd('backtrace').get('ok') or [])]
+            names = [n.split('::')[-1] for n in bt]
+            exp = ['leaf', 'c05_visit', 'middle'] + ['rec'] * rec_frames + ['main']
+            v.count('mixed_cfi_backtraces')
+            # order preserving match of the expected chain inside the reported frames
+            pos = 0
+            for n in names:
+                if pos < len(exp) and n == exp[pos]:
+                    pos += 1
+            if pos != len(exp):
+                v.violation('c05:truncated-or-wrong:through-debug-frame-only-function',
+                            'the backtrace taken below a function whose unwind information lives only in .debug_frame is not the real call chain',
+                            dict(ctx, frames=names[:12], n_frames=len(names), expected_head=exp[:6], expected_len=len(exp)))
+                break
+            v.case(signature=('mixed', depth, stop_no), n=1)
+            r = S.cmd('cont')
+    except Crash as c:
+        v.violation(f'crash:{c.kind}', f'debugger {c.kind} in the mixed CFI leg', dict(ctx, info=c.info), prop='C08')
+    finally:
+        S.close()
+    return v.export()
+
+
 def main(tier):
     rule = ('case = (generated flow program, config, 2-5 stops reached by breakpoint arrivals (incl. deep recursion) optionally followed by '
             'a step); at each stop backtrace ips are compared with [pc] + return addresses of the shadow call stack down to _start, '
@@ -256,5 +343,9 @@ def main(tier):
     progs = sorted({(s[0], tuple(sorted(s[2].items())), tier == 'thorough') for s in specs})
     common.parallel_map(_prep, progs)
     for res in common.safe_map(run_case, specs):
+        V.merge(res)
+    res0 = common._Safe(mixed_case)((0, tier))      # the first case compiles the shared C object; the others run in parallel
+    V.merge(res0)
+    for res in common.safe_map(mixed_case, [(i, tier) for i in range(1, 3 if tier == 'quick' else 12)], procs=3):
         V.merge(res)
     return V.finish()
